@@ -5,7 +5,7 @@ ID = "C20"
 TAGS = ["h_c20"]
 CHECK_MODULE = "Check.C20Check"
 IMPORTS = ["Model.Metrics"]
-RULE = ("label maps of 0-8 ASCII keys over an alphabet with dots, slashes, dashes and forced collisions after "
+RULE = ("(objects are exported after zero to two earlier versions of themselves - same UID, other labels and counters) label maps of 0-8 ASCII keys over an alphabet with dots, slashes, dashes and forced collisions after "
         "sanitising; ExtendedDaemonSet / replica-set objects with random status counters, canary block, conditions "
         "and state; a case is non-trivial when the label map has a key that sanitising changes or the object has a "
         "canary block or a true condition; distinct = distinct canonical JSON of the case")
@@ -57,7 +57,22 @@ def gen_conditions(rng, types):
 def gen_meta(rng):
     return {"name": rng.choice(["foo", "bar", "eds-1"]), "namespace": rng.choice(["default", "ns2"]),
             "creationTimestamp": "2000-01-0%dT00:00:0%dZ" % (rng.randint(1, 9), rng.randint(0, 9)),
-            "labels": gen_labels(rng)}
+            "labels": gen_labels(rng), "uid": "uid-%d" % rng.randint(1, 4), "generation": rng.choice([1, 1, 2])}
+
+
+def earlier_versions(rng, obj):
+    """the same object (same UID, mostly the same generation: a label edit does not bump it) as it was exported before"""
+    import copy
+    out = []
+    for _ in range(rng.choice([0, 1, 1, 2])):
+        o = copy.deepcopy(obj)
+        o["metadata"]["labels"] = gen_labels(rng)
+        if rng.random() < 0.3:
+            o["metadata"]["generation"] = 1
+        for k in ("desired", "current", "ready", "available"):
+            o["status"][k] = rng.randint(0, 50)
+        out.append(o)
+    return out
 
 
 def generate(rng, tier, stats):
@@ -81,13 +96,15 @@ def generate(rng, tier, stats):
                 st["canary"] = {"replicaSet": rng.choice(["foo-b", "foo-c"]),
                                 "nodes": ["n%d" % i for i in range(rng.randint(0, 4))]}
             st["conditions"] = gen_conditions(rng, ["Canary-Paused", "Canary-Failed", "ReconcileError"])
-            cases.append({"kind": "c20_eds_metrics", "obj": {"metadata": gen_meta(rng), "spec": {"template": {}, "strategy": {}}, "status": st}})
+            obj = {"metadata": gen_meta(rng), "spec": {"template": {}, "strategy": {}}, "status": st}
+            cases.append({"kind": "c20_eds_metrics", "obj": obj, "before": earlier_versions(rng, obj)})
         else:
             st = {"status": "active", "desired": rng.randint(0, 50), "current": rng.randint(0, 50),
                   "ready": rng.randint(0, 50), "available": rng.randint(0, 50),
                   "ignoredUnresponsiveNodes": rng.randint(0, 5)}
             st["conditions"] = gen_conditions(rng, ["Canary-Failed", "Canary-Paused", "Active"])
-            cases.append({"kind": "c20_ers_metrics", "obj": {"metadata": gen_meta(rng), "spec": {"template": {}}, "status": st}})
+            obj = {"metadata": gen_meta(rng), "spec": {"template": {}}, "status": st}
+            cases.append({"kind": "c20_ers_metrics", "obj": obj, "before": earlier_versions(rng, obj)})
     stats["kinds"] = {k: sum(1 for c in cases if c["kind"] == k) for k in ("c20_labels", "c20_eds_metrics", "c20_ers_metrics")}
     stats["label_map_sizes"] = {}
     for c in cases:
